@@ -524,9 +524,106 @@ fn scale(w: &mut Worker) {
     let _ = std::fs::remove_dir_all(&dir);
 }
 
+type PrintShape = (&'static str, Vec<(&'static str, Vec<&'static str>)>);
+
+fn print_shapes() -> Vec<PrintShape> {
+    // name -> lines; an entry `>a b` is a directive including those files
+    vec![
+        ("once", vec![("root", vec!["!print root top", ">lib", "echo root runs"]), ("lib", vec!["!print lib parsed", "echo lib runs"])]),
+        ("twice-two-lines", vec![("root", vec![">lib", "!print root middle", ">lib", "echo root runs"]), ("lib", vec!["!print lib parsed", "echo lib runs"])]),
+        ("twice-one-line", vec![("root", vec![">lib lib", "echo root runs"]), ("lib", vec!["!print lib parsed", "echo lib runs"])]),
+        ("three-times", vec![("root", vec![">lib", ">lib lib", "echo root runs"]), ("lib", vec!["!print lib parsed"])]),
+        (
+            "diamond",
+            vec![("root", vec![">a", ">b", "echo root runs"]), ("a", vec!["!print a parsed", ">common", "echo a runs"]), ("b", vec![">common", "!print b parsed", "echo b runs"]), ("common", vec!["!print common parsed", "echo common runs"])],
+        ),
+        ("nested-twice", vec![("root", vec![">a a", "echo root runs"]), ("a", vec!["!print a parsed", ">common"]), ("common", vec!["!print common parsed", "echo common runs"])]),
+        ("print-below-only", vec![("root", vec![">a", ">a"]), ("a", vec![">common"]), ("common", vec!["!print deep one", "!print deep two"])]),
+        ("other-between", vec![("root", vec![">lib", ">other", ">lib"]), ("lib", vec!["!print lib parsed"]), ("other", vec!["!print other parsed", ">lib"])]),
+    ]
+}
+
+/// writes the files of one shape and the pasted script; returns the pasted lines and both paths
+fn write_print_shape(files: &[(&str, Vec<&str>)], style: u8, dir: &Path) -> (Vec<String>, String, String) {
+    let _ = std::fs::remove_dir_all(dir);
+    let _ = std::fs::create_dir_all(dir);
+    let path_of = |n: &str| if style == 0 { format!("./{}.ds", n) } else { dir.join(format!("{}.ds", n)).to_string_lossy().to_string() };
+    for (name, lines) in files {
+        let text: Vec<String> = lines
+            .iter()
+            .map(|l| match l.strip_prefix('>') {
+        Some(list) => format!("!include_files {}", list.split(' ').map(|n| path_of(n)).collect::<Vec<_>>().join(" ")),
+        None => l.to_string(),
+            })
+            .collect();
+        std::fs::write(dir.join(format!("{}.ds", name)), text.join("\n")).expect("write");
+    }
+    fn paste(name: &str, files: &[(&str, Vec<&str>)], out: &mut Vec<String>) {
+        let lines = &files.iter().find(|(n, _)| *n == name).expect("file of the shape").1;
+        for l in lines {
+            match l.strip_prefix('>') {
+        Some(list) => {
+            for n in list.split(' ') {
+                paste(n, files, out);
+            }
+        }
+        None => out.push(l.to_string()),
+            }
+        }
+    }
+    let mut flat = vec![];
+    paste("root", files, &mut flat);
+    std::fs::write(dir.join("pasted.ds"), flat.join("\n")).expect("write");
+    let root = dir.join("root.ds").to_string_lossy().to_string();
+    let pasted = dir.join("pasted.ds").to_string_lossy().to_string();
+    (flat, root, pasted)
+}
+
+/// What a script prints while it is being parsed (`!print`) is part of its behaviour too: an include
+/// structure prints what the pasted script prints - a file included twice prints twice. Observed on
+/// the real standard output of a child process (`dsmc libref file`), structure against pasted text.
+fn parse_time_output(w: &mut Worker) {
+    let me = match std::env::current_exe() {
+        Ok(p) => p,
+        Err(_) => return,
+    };
+    let dir: PathBuf = w.scratch.join("c14-print");
+    let shapes = print_shapes();
+    for (shape, files) in &shapes {
+        for style in 0..2u8 {
+            if !w.take() {
+                continue;
+            }
+            let cj = json!({"kind": "parse-time-output", "shape": shape, "path_style": if style == 0 { "relative" } else { "absolute" }});
+            w.begin(|| cj.clone());
+            let (flat, root, pasted) = write_print_shape(files, style, &dir);
+            w.add_transitions(2);
+            match (crate::props::c20::run_proc(&me, &["libref", "file", &root], &dir), crate::props::c20::run_proc(&me, &["libref", "file", &pasted], &dir)) {
+                (Ok(a), Ok(b)) => {
+                    let prints = flat.iter().filter(|l| l.starts_with("!print")).count();
+                    if b.code != Some(0) || b.stdout.lines().count() != flat.len() {
+                        w.fail("harness:parse-time-output", &format!("{}: the pasted script exits {:?} and prints {:?} ({})", shape, b.code, b.stdout, b.stderr), cj);
+                    } else if a.code != b.code || a.stdout != b.stdout {
+                        w.fail(
+                            "parse-time-output-differs",
+                            &format!("{} ({} !print lines in the pasted script): the include structure exits {:?} and prints {:?} ({}), the pasted script prints {:?}", shape, prints, a.code, a.stdout, a.stderr, b.stdout),
+                            cj,
+                        );
+                    } else {
+                        w.pass(true, hash64(&("parse-time-output", *shape)));
+                    }
+                }
+                (a, b) => w.fail("harness:spawn", &format!("{:?} {:?}", a.err(), b.err()), cj),
+            }
+        }
+    }
+    let _ = std::fs::remove_dir_all(&dir);
+}
+
 pub fn worker(w: &mut Worker) {
     let tier = w.tier;
     scale(w);
+    parse_time_output(w);
     let rig = Rig::new();
     let dir: PathBuf = w.scratch.join("c14");
     let every = tier.pick(5usize, 1usize);
@@ -614,6 +711,19 @@ pub fn worker(w: &mut Worker) {
 }
 
 pub fn replay(case: &Value) -> Result<String, String> {
+    if case["kind"].as_str() == Some("parse-time-output") {
+        let me = std::env::current_exe().map_err(|e| e.to_string())?;
+        let dir = scratch_root().join(format!("replay-c14-print-{}", std::process::id()));
+        let shape = case["shape"].as_str().unwrap_or("");
+        let style = if case["path_style"].as_str() == Some("absolute") { 1 } else { 0 };
+        let shapes = print_shapes();
+        let files = &shapes.iter().find(|(n, _)| *n == shape).ok_or("unknown shape")?.1;
+        let (_flat, root, pasted) = write_print_shape(files, style, &dir);
+        let a = crate::props::c20::run_proc(&me, &["libref", "file", &root], &dir)?;
+        let b = crate::props::c20::run_proc(&me, &["libref", "file", &pasted], &dir)?;
+        let _ = std::fs::remove_dir_all(&dir);
+        return Ok(format!("include structure: exit {:?} prints {:?}\npasted script: exit {:?} prints {:?}", a.code, a.stdout, b.code, b.stdout));
+    }
     if case["kind"].as_str() == Some("scale") {
         let dir = scratch_root().join(format!("replay-c14-scale-{}", std::process::id()));
         let r = scale_check(case["shape"].as_str().unwrap_or("chain"), case["n"].as_u64().unwrap_or(1) as usize, &dir);
@@ -662,7 +772,7 @@ pub fn crash_sig(_case: &Value, kind: &str) -> String {
     kind.to_string()
 }
 
-pub const RULE: &str = "include structures: four files r.ds, d1/a.ds, d1/d2/b.ds, c.ds; every assignment of an include directive (none / one file / two files / the same file twice, listed in one directive, at the first, middle or last line) to each file such that a file only includes files later in the order (two orders: descending into and climbing out of the nested directories), unreachable files normalised away, x path style {./relative, plain relative, absolute}. Faults (on every n-th structure): each include edge pointing to a missing file; a malformed line at every (reachable file, line); a trigger_error at every (reachable file, line); two handled errors in different files (the later one is the last error: its line and its file); pairs of faults (a missing edge or a malformed line in an included file together with a malformed last line of the root file: the one that comes first in the pasted text must be reported). Oracle: parse_file(root) minus directive instructions equals parse_text of the recursively pasted text; every instruction carries the file it came from (compared as canonical paths) and its line in that file; running the file and the pasted text gives the same emit trace and variables; a missing file fails the parse with ErrorReadingFile naming that file; a malformed line fails with its kind, its own line and its own file; get_last_error_line/_source name the included file and line. Scale cases: a chain of 12/40 (thorough 150) files each including the next across two directories, a chain through files whose names differ only in letter case, one directive listing 12/100 (thorough 1000) files, an included file of 5000 (thorough 200000) lines: instruction order, file and line of every instruction";
+pub const RULE: &str = "include structures: four files r.ds, d1/a.ds, d1/d2/b.ds, c.ds; every assignment of an include directive (none / one file / two files / the same file twice, listed in one directive, at the first, middle or last line) to each file such that a file only includes files later in the order (two orders: descending into and climbing out of the nested directories), unreachable files normalised away, x path style {./relative, plain relative, absolute}. Faults (on every n-th structure): each include edge pointing to a missing file; a malformed line at every (reachable file, line); a trigger_error at every (reachable file, line); two handled errors in different files (the later one is the last error: its line and its file); pairs of faults (a missing edge or a malformed line in an included file together with a malformed last line of the root file: the one that comes first in the pasted text must be reported). Oracle: parse_file(root) minus directive instructions equals parse_text of the recursively pasted text; every instruction carries the file it came from (compared as canonical paths) and its line in that file; running the file and the pasted text gives the same emit trace and variables; a missing file fails the parse with ErrorReadingFile naming that file; a malformed line fails with its kind, its own line and its own file; get_last_error_line/_source name the included file and line. Scale cases: a chain of 12/40 (thorough 150) files each including the next across two directories, a chain through files whose names differ only in letter case, one directive listing 12/100 (thorough 1000) files, an included file of 5000 (thorough 200000) lines: instruction order, file and line of every instruction. Parse-time output: 8 include shapes with !print lines (a file included once, twice on two lines, twice on one line, three times, a diamond, a nested file twice, prints only below, another file between) x relative / absolute paths, run in a child process against the pasted text run in a child process: same exit status, same standard output";
 pub const ASSUMPTIONS: &[&str] = &["cyclic includes are outside the property (C07 probes them)", "the scratch directory is on a local file system without symlinks"];
 pub const EXHAUSTIVE: bool = true;
 pub const WALL_CAP_S: (u64, u64) = (55, 1500);
